@@ -13,6 +13,7 @@ RULES = {
     "R-03.1": "writer and reader agree on the message header, question and RR header layouts (struct formats, field order, section numbering, empty-rdataset form)",
     "R-03.2": "a section count is increased only after the size-tracked block completed, by the number of RRs that block wrote; Rdataset.to_wire returns that number",
     "R-03.3": "the only compression table on the render path is Renderer.compress and it always travels with Renderer.output; Rdataset/RRset pass both through unchanged",
+    "R-03.5": "the OPT pseudo-record keeps its EDNS state through the padding path of the renderer (flags, payload size, options all passed to the rebuilt OPT) - shared with C08 R-08.4",
     "R-03.4": "the wire reader builds sections only through find_rrset with the six-component key; Message.index is written only there",
 }
 REN = "dns.renderer.Renderer"
@@ -195,6 +196,8 @@ def run(model, rep, tier):
             rep.check(not used, "R-03.4", f.qualname, where(f, f.node), "parser hook uses only state the reader populated (sections, flags)",
                       f"parser hook reads self.{', self.'.join(used)}, which only the user-facing constructor sets: for a message built by the wire/text reader it holds the default (e.g. class IN), so decoded records differ from the rendered ones", stmt="hook-state")
     rep.floor("R-03.4-hooks", n_hooks, 3)
+    from rules.c08 import check_padded_opt
+    check_padded_opt(model, rep, "R-03.5")
     rep.meta["explanation"] = (
         "Layout agreement of the hand-written writer/reader pairs at the message layer (struct formats folded and compared field by field), statement-position rule for the section counts, "
         "provenance of the compression table argument at every to_wire call that receives the renderer's buffer, and who-may-write on the section index. "
